@@ -12,7 +12,7 @@ EXTENDS Integers, Sequences, FiniteSets, TLC, Json
 CONSTANTS Contents,        \* content ids; HasWell[c] tells whether the text carries its own ~Well section
           HasWell, Channels, Encodings, Newlines, OptIds, MaxOps, SharedDefaults, Emit
 VARIABLES heap, defaults, n, last
-HW == [c \in {"full", "nowell", "cyr", "nel", "commadec", "commadlm"} |-> c # "nowell"]
+HW == [c \in {"full", "nowell", "cyr", "nel", "commadec", "commadlm", "indent"} |-> c # "nowell"]
 vars == <<heap, defaults, n, last>>
 
 \* an object: content, options, own (its ~Well is its own), w (version counter of its own ~Well)
